@@ -219,8 +219,16 @@ class X:
             return e.slice.value
         return None
 
+    def query_slot(self, e):
+        """self.epistemic_state["v_cnf_dict"][QUERY_KEY] -> "v_cnf_dict#query" """
+        if isinstance(e, ast.Subscript) and isinstance(e.slice, ast.Name) and e.slice.id == "QUERY_KEY":
+            k = self.state_key(e.value)
+            if k is not None:
+                return k + "#query"
+        return None
+
     def e_Subscript(self, e, env):
-        k = self.state_key(e)
+        k = self.query_slot(e) or self.state_key(e)
         if k is not None:
             for key, coq, ty in self.ctx.fn.state:
                 if key == k:
@@ -555,6 +563,16 @@ class X:
             if ts != ["form"]:
                 fail(e, "%s of %r" % (name, ts))
             return "(%s n %s)" % ("f_sat" if name == "is_sat" else "f_unsat", cs[0]), "bool", b
+        if name in ("create_optimizer", "TseitinTransformation"):
+            a = e.args
+            if e.keywords or len(a) != 1 or not (isinstance(a[0], ast.Attribute) and isinstance(a[0].value, ast.Name)
+                                                  and a[0].value.id == "self" and a[0].attr == "epistemic_state"):
+                fail(e, "%s(...) of something other than self.epistemic_state" % name)
+            return "tt", ("optimizer" if name == "create_optimizer" else "tseitin"), []
+        if name == "WCNF":
+            if e.args or e.keywords:
+                fail(e, "WCNF with arguments")
+            return "wcnf_new", "wcnf", []
         if name == "Solver":
             for kw in e.keywords:
                 if kw.arg != "name":
@@ -638,6 +656,42 @@ class X:
                 return c, t, b
         if isinstance(t, tuple) and t[0] == "list" and f.attr == "copy" and not e.args:
             return c, t, b
+        if t == "wcnf" and f.attr == "copy" and not e.args and not e.keywords:
+            return c, t, b
+        if t == "optimizer" and f.attr == "minimal_correction_subsets":
+            given = {}
+            names = ["wcnf", "ignore", "deadline"]
+            for k_, a_ in enumerate(e.args):
+                given[names[k_]] = a_
+            for kw in e.keywords:
+                if kw.arg not in names or kw.arg in given:
+                    fail(e, "minimal_correction_subsets(%s=...)" % kw.arg)
+                given[kw.arg] = kw.value
+            if "wcnf" not in given:
+                fail(e, "minimal_correction_subsets without a wcnf")
+            wc, wt, wb = self.tx(given["wcnf"], env)
+            if wt != "wcnf":
+                fail(e, "minimal_correction_subsets of %r" % (wt,))
+            if "ignore" in given:
+                ic, it_, ib = self.tx(given["ignore"], env)
+                if it_ != ("list", "int"):
+                    fail(e, "ignore list of type %r" % (it_,))
+            else:
+                ic, ib = "[]", []     # the default argument of the real method
+            if "deadline" in given:
+                self.tx(given["deadline"], env)
+            nf = None
+            for key, coq, ty in self.ctx.fn.state:
+                if key == "nf_cnf_dict":
+                    nf = coq
+            if nf is None:
+                fail(e, "minimal_correction_subsets needs the state entry nf_cnf_dict")
+            return "(mcs n %s %s %s)" % (nf, wc, ic), ("list", ("list", "int")), b + wb + ib
+        if t == "tseitin" and f.attr == "query_to_cnf" and len(e.args) == 1 and not e.keywords:
+            qc, qt, qb = self.tx(e.args[0], env)
+            if qt != "cond":
+                fail(e, "query_to_cnf of %r" % (qt,))
+            return "(cnf_of_query %s)" % qc, ("tuple", (("list", "sclause"), ("list", "sclause"))), b + qb
         if t == "solver" and f.attr == "solve" and not e.args and not e.keywords:
             return "(s_solve n %s)" % c, "bool", b
         if isinstance(t, tuple) and t[0] == "set" and f.attr == "issubset":
@@ -759,6 +813,18 @@ class B:
             return None
         t = env[name]
         meth = e.func.attr
+        if t == "wcnf" and meth == "append" and len(e.args) == 1:
+            if name in self.ctx.captured:
+                fail(e, "%s is mutated after it was stored elsewhere (aliasing)" % name)
+            c, te, b = self.x.tx(e.args[0], env)
+            if te != "sclause":
+                fail(e, "WCNF.append of %r" % (te,))
+            if not e.keywords:
+                return name, "(w_append %s %s)" % (v(name), c), b, t
+            if len(e.keywords) == 1 and e.keywords[0].arg == "weight" and isinstance(e.keywords[0].value, ast.Constant) \
+                    and e.keywords[0].value.value == 1:
+                return name, "(w_append_soft %s %s)" % (v(name), c), b, t
+            fail(e, "WCNF.append with these keywords")
         if e.keywords:
             return None
         if name in self.ctx.captured and is_mutable(t):
@@ -847,6 +913,16 @@ class B:
                     fail(s, "multiple assignment targets")
                 t = targets[0]
                 if isinstance(t, ast.Subscript):
+                    slot = self.x.query_slot(t)
+                    if slot is not None:
+                        entry = [st for st in self.ctx.fn.state if st[0] == slot]
+                        if not entry:
+                            fail(s, "state slot %s is not declared for %s" % (slot, self.ctx.fn.name))
+                        c, ty, b = self.x.tx(s.value, env)
+                        unify(entry[0][2], ty)
+                        binds_in(b)
+                        let(entry[0][1], c)
+                        continue
                     self.subscript_assign(s, t, env, let, binds_in)
                     continue
                 c, ty, b = self.x.tx(s.value, env)
@@ -1087,7 +1163,7 @@ class B:
 
 # ------------------------------------------------------------------------------------------------ driver
 COQ_TYPES = {"bool": "bool", "int": "Z", "form": "form", "cond": "cond", "solver": "solver", "str": "unit", "none": "unit",
-             "bb": "pybase", "deadline": "unit", "wcnf": "wcnf"}
+             "bb": "pybase", "deadline": "unit", "wcnf": "wcnf", "sclause": "sclause", "optimizer": "unit", "tseitin": "unit"}
 
 
 def coq_type(t):
@@ -1216,6 +1292,10 @@ def abstract_params(fn):
 PART_OBJ = ("list", ("list", "cond"))
 PART_KEY = ("list", ("list", "int"))
 
+SCNF = ("list", "sclause")
+W_STATE = [("partition", "es_partition", PART_KEY), ("nf_cnf_dict", "es_nf_cnf_dict", ("dict", SCNF)),
+           ("f_cnf_dict", "es_f_cnf_dict", ("dict", SCNF)), ("v_cnf_dict#query", "es_v_query", SCNF), ("f_cnf_dict#query", "es_f_query", SCNF)]
+
 TARGETS = [
     dict(out="SrcCond", file="inference/conditional.py", requires=[], funcs=[
         Fn("make_A_then_B", "py_make_A_then_B", [("self", "cond")], cls="Conditional"),
@@ -1239,6 +1319,13 @@ TARGETS = [
            cls="SystemZ", ret="bool", state=[("partition", "es_partition", PART_OBJ)]),
         Fn("_inference", "py_SystemZ_inference", [("query", "cond"), ("weakly", "bool"), ("deadline", "deadline")],
            cls="SystemZ", ret="bool", state=[("partition", "es_partition", PART_OBJ), ("smt_solver", "es_smt_solver", "str")]),
+    ]),
+    dict(out="SrcW", file="inference/system_w.py", requires=["SrcCond"], funcs=[
+        Fn("any_subset_of_all", "py_w_any_subset_of_all", [("A", ("set", ("set", "int"))), ("B", ("set", ("set", "int")))]),
+        Fn("_rec_inference", "py_SystemW_rec_inference", [("hard_constraints", "wcnf"), ("partition_index", "int"), ("deadline", "deadline")],
+           cls="SystemW", ret="bool", state=W_STATE),
+        Fn("_inference", "py_SystemW_inference", [("query", "cond"), ("weakly", "bool"), ("deadline", "deadline")],
+           cls="SystemW", ret="bool", state=W_STATE + [("belief_base", "es_belief_base", "bb"), ("smt_solver", "es_smt_solver", "str")]),
     ]),
     dict(out="SrcP", file="inference/p_entailment.py", requires=["SrcCond", "SrcCons"], funcs=[
         Fn("_inference", "py_PEntailment_inference", [("query", "cond"), ("weakly", "bool"), ("deadline", "deadline")],
